@@ -74,7 +74,10 @@ void dominator_tree(G g, typename G::node_t entry, Map &idom) {
     put(index_map, *It, j);
   }
 
-  std::vector<vertices_size_type_t> df_num(num_vertices(g), 0);
+  // boost skips the predecessors whose depth-first number is not in
+  // [0, num_vertices): vertices that are unreachable from entry must
+  // not keep 0, which is the depth-first number of entry.
+  std::vector<vertices_size_type_t> df_num(num_vertices(g), num_vertices(g));
   time_map_t df_num_map(make_iterator_property_map(df_num.begin(), index_map));
   std::vector<node_t> parent(num_vertices(g),
                              boost::graph_traits<G>::null_vertex());
